@@ -3,8 +3,10 @@
 (* many clients (thresholds up to 200) and arbitrary selections handed to the real   *)
 (* share_recover.  The recorder interns byte strings (group = (m, e, t, source);     *)
 (* point = x-coordinate of the share), the spec rebuilds the symbolic shares and     *)
-(* must predict every logged outcome with the code's own rules (first share supplies *)
-(* threshold / C / D / J, dedup keeps the first occurrence, first t distinct points).*)
+(* judges every logged outcome against the recovery contract of Adss.tla (what the   *)
+(* properties demand); agreement with the code-shaped reference AdssRecover (first   *)
+(* share supplies threshold / C / D / J, dedup keeps the first occurrence, first t   *)
+(* distinct points) is counted in `agree` and reported, not demanded.                *)
 EXTENDS Star, TLC, Json, IOUtils
 
 Recs == ndJsonDeserialize(IOEnv.TRACE)
@@ -17,7 +19,8 @@ IsEv(name) == l <= Len(Recs) /\ Recs[l].ev = name /\ l' = l + 1
 SidG(g, t) == Sid(DefaultT, t, <<"R", 0, <<"G", g>>>>, <<"R", 1, <<"G", g>>>>)
 ShareC(c) == ShareOf(SidG(clients[c].g, clients[c].t), clients[c].x)
 
-TraceInit == l = 1 /\ clients = <<>>
+\* TLC register 1 counts the Recover events whose outcome equals the reference model's
+TraceInit == l = 1 /\ clients = <<>> /\ TLCSet(1, 0)
 
 TReset == IsEv("Reset") /\ clients' = <<>>
 
@@ -26,6 +29,7 @@ TClient ==
   /\ IsEv("Client")
   /\ Recs[l].id = Len(clients) + 1
   /\ clients' = Append(clients, [g |-> Recs[l].g, t |-> Recs[l].t, x |-> Recs[l].x])
+ 
 
 \* share_recover(selection) with an optional forged threshold on one position
 TRecover ==
@@ -33,10 +37,15 @@ TRecover ==
   /\ LET r  == Recs[l]
          sh == [i \in 1..Len(r.sel) |->
                   IF r.forge_pos = i THEN [ShareC(r.sel[i]) EXCEPT !.thr = r.forge_thr] ELSE ShareC(r.sel[i])]
-         o  == AdssRecover(sh)
-     IN /\ (r.ok = 1) = o.ok
-        /\ o.ok => /\ o.sid = SidG(r.grp, clients[r.sel[1]].t)
-                   /\ r.opened = 1      \* every report of that group opened to its payload
+         orig    == [i \in 1..Len(r.sel) |-> SidG(clients[r.sel[i]].g, clients[r.sel[i]].t)]
+         genuine == [i \in 1..Len(r.sel) |-> TRUE]                 \* only threshold fields are forged here
+         intact  == [i \in 1..Len(r.sel) |-> r.forge_pos # i \/ r.forge_thr = clients[r.sel[i]].t]
+         \* the logged outcome as an outcome record: success means the message opened every
+         \* report of the first share's group (r.grp is that group, r.opened says all opened)
+         o  == IF r.ok = 1 THEN [ok |-> TRUE, sid |-> SidG(r.grp, clients[r.sel[1]].t)] ELSE [ok |-> FALSE]
+     IN /\ MeetsContract(o, sh, orig, genuine, intact)
+        /\ r.ok = 1 => r.opened = 1
+        /\ TLCSet(1, TLCGet(1) + (IF (r.ok = 1) = AdssRecover(sh).ok THEN 1 ELSE 0))
   /\ UNCHANGED clients
 
 TraceNext == TReset \/ TClient \/ TRecover
@@ -47,7 +56,7 @@ TraceInv == \A a, b \in 1..Len(clients) : a # b => clients[a].x # clients[b].x
 
 Accepted ==
   LET d == TLCGet("stats").diameter
-  IN IF d = Len(Recs) + 1 THEN TRUE
+  IN IF d = Len(Recs) + 1 THEN PrintT(<<"AGREE", TLCGet(1), Cardinality({i \in 1..Len(Recs) : Recs[i].ev = "Recover"})>>)
      ELSE /\ PrintT(<<"REJECTED", ToJson([at |-> d, ev |-> Recs[d]])>>)
           /\ FALSE
 =============================================================================
